@@ -5,6 +5,7 @@ import re
 import tempfile
 from pathlib import Path
 
+from pyvc import FIXTURES, HOME  # noqa: F401
 from pyvc.api import clause, contract
 from safeds_stubgen.api_analyzer import TypeSourcePreference, TypeSourceWarning
 from safeds_stubgen.docstring_parsing import DocstringStyle
@@ -15,6 +16,8 @@ _CLI = "safeds_stubgen.api_analyzer.cli._cli:"
 
 
 def ARGS(src, convert=False, style="PLAINTEXT"):
+    if src.startswith("/verif/"):      # witnesses in known_findings.json name the fixtures by their usual place
+        src = HOME + src[len("/verif"):]
     return {"src_dir_path": Path(src), "out_dir_path": Path(tempfile.mkdtemp(prefix="pyvc_kf_")), "docstring_style": DocstringStyle[style],
             "is_test_run": True, "convert_identifiers": convert, "type_source_preference": TypeSourcePreference.CODE,
             "type_source_warning": TypeSourceWarning.IGNORE}
@@ -31,7 +34,7 @@ class findings_c:
     def native_call(fn, **kw):
         import logging, sys
         saved = list(sys.path)
-        sys.path[:] = [p for p in sys.path if os.path.abspath(p or ".") != "/verif"]
+        sys.path[:] = [p for p in sys.path if os.path.abspath(p or ".") != HOME]
         logging.disable(logging.CRITICAL)
         try:
             return fn(**kw)
